@@ -112,9 +112,16 @@ static void build_items(int deep)
 		for (a = 0; a < ndata; a++) {
 			it.nops = 1; it.ops[0] = data[a]; add_item(&it);
 			for (b = 0; b < ndata; b++) {
-				/* quick: the 1 MiB payload is paired only with the empty and the 64 KiB one */
-				if (!deep && data[a].arg > 70000 && data[b].arg != 0 && data[b].arg != 65536) continue;
-				if (!deep && data[b].arg > 70000 && data[a].arg != 0 && data[a].arg != 65536) continue;
+				/* quick: payloads >= 64 KiB are expensive here (buffers beyond 128 KiB are mmap'ed
+				 * under ASan); they are sent alone from every call site, and in pairs only next to
+				 * the 126-byte payload from the request handler */
+				if (!deep) {
+					int ba = data[a].arg > 60000, bb = data[b].arg > 60000;
+					long other = ba ? data[b].arg : data[a].arg, big = ba ? data[a].arg : data[b].arg;
+					(void)big;
+					if (ba && bb) continue;
+					if ((ba || bb) && (other != 126 || w != WH_HANDLER)) continue;
+				}
 				for (cl = 0; cl < 2; cl++) {
 					it.nops = 2 + cl; it.ops[0] = data[a]; it.ops[1] = data[b];
 					it.ops[2].op = OP_CLOSE; it.ops[2].arg = 1000; it.ops[2].content = 0;
